@@ -1170,6 +1170,22 @@ func (x *Exec) chanRecv(fr *Frame, st *State, ch *Term, et types.Type, in ssa.In
 	if key == "" {
 		return v
 	}
+	if owner := x.env.con.SoleConsumer[key]; owner != "" {
+		if owner != strings.SplitN(x.topKey(), "$", 2)[0] {
+			if x.dry == 0 {
+				x.assert(st, "soleconsumer", "receive on "+key+" outside its declared sole consumer "+owner, tFalse, in.Pos(), nil)
+			}
+		} else {
+			// a receive takes one element: the known lower bound of the length drops by one
+			h := st.H("ghost:chanmin", arraySort(sortInt, sortInt))
+			old := mkSelect(h, ch)
+			dec := mkIte(mkLt(mkInt(0), old), mkSub(old, mkInt(1)), mkInt(0))
+			if cond != nil && cond != tTrue {
+				dec = mkIte(cond, dec, old)
+			}
+			st.setH("ghost:chanmin", mkStore(h, ch, dec))
+		}
+	}
 	if x.env.con.CloseOnly[key] {
 		// nothing is ever sent on this channel (every send on it is flagged): a receive that
 		// succeeds has seen it closed, and closed is for ever
